@@ -12,6 +12,8 @@ def gen_set(rng):
         sn = rng.choice([None, None, "podsvc-" + stem.replace(" ", ""), "with space", stem.replace(" ", "") + ".service", "x.service.service", stem.replace(" ", "") + "-pod", "a.pod"]) if rng.random() < 0.5 else None
         if rng.random() < 0.04:
             sn = "nested/name"
+        if sn is not None and sn in [q["service_name"] for q in pods]:
+            sn = None                  # two units with one service name share a service file: outside the property
         pods.append({"stem": stem, "service_name": sn, "podname": rng.choice([None, "my" + stem.replace(" ", "")])})
     ctrs = []
     for stem in rng.sample(["c1", "c2", "web", "db", "side car", "z"], rng.randint(0, 6)):
